@@ -92,6 +92,7 @@ def make_dict(rng, exact):
 # ------------------------------------------------------------------ one case
 def one_case(ctx, case):
     n, basis, exact, kind = case["n"], case["basis"], case["exact"], case["kind"]
+    ctx.current_case = case
     rng_seed = case["seed"]
     import random as _r
     rng = _r.Random(rng_seed)
